@@ -1,8 +1,9 @@
 import MaltModel.Conv.ControlFlow
+import MaltModel.Conv.Contract
 import MaltModel.Py.SexpAst
 /- Driver handlers for the C03 correspondence (glue only; no theorem depends on this file). -/
 namespace Malt.Drv.C03
-open Malt Malt.Py Malt.Naming Malt.Conv.ControlFlow
+open Malt Malt.Py Malt.Naming Malt.Conv.ControlFlow Malt.Conv.Contract
 
 def run (f : Option String) : String := f.getD "bad-args"
 
@@ -33,6 +34,16 @@ def handlers : List (String × (List Sexp → String)) := [
       let (out, nm') := transform { ann, dirs } nm root
       let fresh := (nm'.generated.take (nm'.generated.length - gen.length)).reverse
       pure (toString (Sexp.list [.atom "ok", stmtsToSexp out, Sexp.ofStrs fresh]))),
+  ("c03.check", fun a => run do
+      let [tree] := a | none
+      let g ← parseStmts tree
+      let es := emitted g
+      let kindStr (k : OpKind) : String := match k with | .ifStmt => "if_stmt" | .whileStmt => "while_stmt" | .forStmt => "for_stmt"
+      let rows := es.map fun o => match o with
+        | none => Sexp.atom "malformed"
+        | some c => Sexp.list [.atom (kindStr c.kind), Sexp.ofStrs (nameStrs c), Sexp.ofBool (lengthsB c), Sexp.ofBool (positionsB c),
+            Sexp.ofBool (arityB c), Sexp.ofBool (noutsB c), Sexp.ofBool (distinctB c), Sexp.ofBool (getterPureB c)]
+      pure (toString (Sexp.list [Sexp.ofBool (contractOk g), .list rows]))),
   ("c03.blockvars", fun a => run do
       let [m, li, lo, di, g, n] := a | none
       let r := Malt.Conv.BlockVars.blockVars (← strs? m) (← strs? li) (← strs? lo) (← strs? di) (← strs? g) (← strs? n)
